@@ -150,13 +150,17 @@ Fixpoint item_tokens (x : xcontent) (acc : str) : list token * str :=
   end.
 End Tokens.
 
+(** 4.2.2: a public identifier is normalized before it is reported: white space becomes single
+    spaces, leading and trailing white space is removed *)
+Definition pub_norm (s : str) : str := tok_norm (map (fun c => if isS c then c_sp else c) s).
+
 Definition doctype_tokens (dt : doctype) : list token :=
   let l := dt_subset dt in
   let pub_sys id := match id with
                     | Some (SystemId s) => (None, Some s)
-                    | Some (PublicId p s) => (Some p, Some s)
+                    | Some (PublicId p s) => (Some (pub_norm p), Some s)
                     | None => (None, None) end in
-  let nots := flat_map (fun d => match d with DNotation nm p s => [(nm, TNotation nm p s)] | _ => [] end) l in
+  let nots := flat_map (fun d => match d with DNotation nm p s => [(nm, TNotation nm (option_map pub_norm p) s)] | _ => [] end) l in
   let unp := flat_map (fun d => match d with
                                 | DEntity nm (EdExternal id (Some n)) =>
                                   [(nm, TUnparsed nm (fst (pub_sys (Some id))) (opt_str (snd (pub_sys (Some id)))) n)]
